@@ -418,6 +418,8 @@ func c20RunCase(out *workerOut, r *Rand, fam string, idx int, root, tier string)
 		cs = c20Gen(r, pat, r.Range(1, 2), 4, 0)
 	case "load":
 		cs = c20Gen(r, nil, r.Range(1, 8), 8, 25)
+	case "unstartable":
+		cs = c20Gen(r, []string{"ok", "ok", "ok", "ok", "ok", "ok", "ok", "ok", "ok", "ok", "ok", "ok", "ok", "ok", "ok", "ok", "ok", "ok", "ok", "ok", "ok", "ok", "ok", "ok", "ok", "ok", "ok", "ok", "ok", "ok", "ok", "ok", "ok", "ok", "ok", "ok", "ok", "ok", "ok", "ok"}, r.Range(1, 3), 4, 0)
 	default:
 		cs = c20Gen(r, nil, r.Range(1, 3), 5, 8)
 	}
@@ -429,6 +431,23 @@ func c20RunCase(out *workerOut, r *Rand, fam string, idx int, root, tier string)
 	os.Setenv("FAKETOOL_LOG", toolLog)
 	os.Setenv("FAKETOOL_DIR", toolDir)
 	tool := filepath.Join(binDir(), "faketool")
+	if base == "unstartable" {
+		// a tool that is found (exists, executable bit set) but cannot be started
+		tool = filepath.Join(root, "broken-tool")
+		switch idx % 3 {
+		case 0:
+			os.WriteFile(tool, []byte("\x7fELF garbage that is not a program\n"), 0o755) // exec format error
+		case 1:
+			os.WriteFile(tool, []byte("#!/nonexistent/interpreter\necho\n"), 0o755) // ENOENT at exec
+		default:
+			os.WriteFile(tool, []byte{}, 0o755) // empty file
+		}
+		for _, st := range cs.Steps {
+			if st.Tool != "" {
+				st.Fails, st.Issues, st.Behave = true, 0, "cannot-be-started"
+			}
+		}
+	}
 	par := runtime.NumCPU()
 	detail := func(extra map[string]interface{}) map[string]interface{} {
 		files := map[string]string{}
@@ -487,6 +506,12 @@ func c20RunCase(out *workerOut, r *Rand, fam string, idx int, root, tier string)
 	invs := c20ParseToolLog(toolLog)
 	out.count("tool_invocations", len(invs))
 
+	if base == "unstartable" {
+		// no tool-side log exists: only the fatal-error and trace oracles apply
+		for _, st := range cs.Steps {
+			st.Expected = ""
+		}
+	}
 	// ---- (A) exactly once, with the exact sanitised stdin
 	want := map[string]*c20Step{}
 	anyFail := false
@@ -726,6 +751,7 @@ func runC20(r *Run) {
 	add("mixed", r.Q(200, 6000), 20, false, nil)
 	add("load", r.Q(30, 600), 5, false, nil)
 	add("load-cpu2", r.Q(30, 600), 5, false, []string{"taskset", "-c", "0,1"})
+	add("unstartable", r.Q(30, 300), 15, false, nil)
 	add("faults-cpu2", r.Q(40, 400), 20, false, []string{"taskset", "-c", "0,1"})
 	if _, err := os.Stat(filepath.Join(binDir(), "verifmon-race")); err != nil {
 		r.Inconclusive("race build of the monitor is missing")
